@@ -4,12 +4,16 @@ import glob, json, os, sys
 root = os.path.dirname(os.path.dirname(os.path.abspath(__file__)))
 rows = [json.load(open(os.path.join(d, "meta.json"))) for d in sorted(glob.glob(os.path.join(root, "seeded", "*"))) if os.path.exists(os.path.join(d, "meta.json"))]
 compact = "--compact" in sys.argv
+if "--round" in sys.argv:
+    rnd = int(sys.argv[sys.argv.index("--round") + 1])
+    rows = [m for m in rows if m.get("round", 1) == rnd]
 if compact:
     print("| change | site / slip | reported by | first version of the check |")
     print("|---|---|---|---|")
     for m in rows:
         s = m["summary"]
         first = "missed — rule added" if ("Initially missed" in s) else ("caught by another property's check only — clause added" if "Initially caught only" in s or "Initially reported only" in s else "caught")
+        s = s.split(". The first version")[0]
         short = s.split(". Initially")[0].split(" (needs")[0]
         if len(short) > 170:
             short = short[:167] + "…"
